@@ -9,6 +9,9 @@ from . import ir, util, cint, absmodel
 from .absmodel import SELF, TERM, Mismatch, Unsupported
 
 
+MARKS = {}
+
+
 class ListWorld:
     def __init__(self, P, n):
         self.P = P
@@ -32,7 +35,7 @@ class ListWorld:
                 seen.append(it.ev(e[2][0]))
                 return 0
             raise cint.NoEval('call %s' % nm)
-        cint.CInt(self.P, self.P.fn('List_Free'), atoms=self.atoms, call=call, recurse=True).run([SELF, el])
+        cint.CInt(self.P, self.P.fn('List_Free'), atoms=self.atoms, call=call, recurse=True, strict=True).run([SELF, el])
         if len(seen) != 1:
             raise Unsupported('List_Free does not release one block')
         return seen[0]
@@ -58,6 +61,48 @@ class ListWorld:
         if a not in self.words:
             raise Mismatch('writes a word that is no link of a node of this list')
         self.words[a] = v
+
+    def mark_here(self, what):
+        """Called where an operation hands control to code outside the list (assign, destruct, eq, the cursor functions of another
+        object): such code may allocate, an allocation may start a collection, and the collection marks this list *now*.  The
+        list's Mark instance is evaluated on the state as it is at this moment: it must hand every node that is linked into the
+        list to the callback (each once), whatever the count field says at this point."""
+        P = self.P
+        mk = P.slot('List', 'Mark', 'mark', required=False)
+        if mk is None or getattr(self, 'in_mark', False):
+            return
+        head = self.atoms[('elem', 'self', 0, 'head')]
+        linked, cur, guard = [], head, 0
+        while cur != 0 and cur in self.block_of and guard < 20:
+            linked.append(cur)
+            cur = self.words.get(absmodel.sub(P, 'List_Next', [SELF, cur], self.atoms), 0)
+            guard += 1
+        seen = []
+        FN, GC = 4242, 4300
+
+        def call(nm, e, it):
+            if nm is None:
+                if it.ev(e[1]) != FN:
+                    raise cint.NoEval('indirect call')
+                seen.append(it.ev(e[2][1]))
+                return 0
+            raise cint.NoEval('call %s' % nm)
+        self.in_mark = True
+        try:
+            snapshot = dict(self.atoms)
+            it = cint.CInt(P, P.fn(mk), atoms=snapshot, call=call, recurse=True, mem=self.mem, max_steps=2000, strict=True)
+            it.atoms = snapshot
+            try:
+                r = it.run([SELF, GC, FN])
+            except Mismatch as x:
+                r = ('mismatch', str(x), None)
+        finally:
+            self.in_mark = False
+        if r[0] != 'ret' or sorted(seen) != sorted(linked):
+            cnt = self.atoms[('elem', 'self', 0, 'nitems')]
+            self.mark_problem = getattr(self, 'mark_problem', None) or (
+                'when %s is called %d node(s) are linked and the count says %s: a collection started from there marks %s' % (
+                    what, len(linked), cnt, ('%d of them' % len([v for v in seen if v in linked])) if r[0] == 'ret' else 'with an error (%s)' % (r[1],)))
 
     def readback(self):
         """(sequence read through the next links, problems)"""
@@ -88,13 +133,16 @@ class ListWorld:
 def eval_list_op(P, op):
     """-> (mismatch on a valid call, mismatch on a call that must be refused, unsupported, cases)"""
     HDR = 8 * len(P.records['Header']['fields']) if 'Header' in P.records else 24
-    slot = {'push': ('Push', 'push'), 'pop': ('Push', 'pop'), 'push_at': ('Push', 'push_at'), 'pop_at': ('Push', 'pop_at'),
+    slot = {'push': ('Push', 'push'), 'pop': ('Push', 'pop'), 'push_at': ('Push', 'push_at'), 'pop_at': ('Push', 'pop_at'), 'concat': ('Concat', 'concat'),
             'rem': ('Get', 'rem'), 'mem': ('Get', 'mem'), 'get': ('Get', 'get'), 'set': ('Get', 'set'), 'resize': ('Resize', 'resize')}[op]
     fn = P.fn(P.slot('List', slot[0], slot[1]))
     OBJ, KEYOBJ = 31337, 9000
     bad, badr, unsup, ncase = None, None, None, 0
+    marks = [None]
     for n in range(0, 4):
-        if op in ('push',):
+        if op == 'concat':
+            variants = [0, 1, 2]                      # number of items the other iterable yields
+        elif op in ('push',):
             variants = [None]
         elif op in ('pop',):
             variants = [None]
@@ -118,6 +166,9 @@ def eval_list_op(P, op):
 
             def call(nm, e, it, W=W, var=var, target=target):
                 if nm == 'c_int':
+                    v = it.ev(e[2][0])
+                    if isinstance(v, tuple) and v[0] == 'stack':
+                        return v[2][0]
                     return var
                 if nm == 'eq':
                     a, b = it.ev(e[2][0]), it.ev(e[2][1])
@@ -126,14 +177,27 @@ def eval_list_op(P, op):
                         raise Mismatch('eq is applied to something that is not (an element, the argument)')
                     return int(el in target)
                 if nm == 'destruct':
+                    W.mark_here('a destructor')
                     W.events.append(('destruct', it.ev(e[2][0])))
                     return it.ev(e[2][0])
                 if nm == 'assign':
+                    W.mark_here('assign')
                     W.events.append(('assign', it.ev(e[2][0]), it.ev(e[2][1])))
                     return it.ev(e[2][0])
                 if nm == 'free':
                     W.events.append(('free', it.ev(e[2][0])))
                     return 0
+                if nm == 'method_at_offset' and op == 'concat':
+                    return ('ep', 'iterinst', 0)
+                if nm is None and op == 'concat':
+                    f_ = it.ev(e[1])
+                    W.mark_here('the cursor function of the other iterable')
+                    if f_ == 8801:
+                        return 7001 if var >= 1 else TERM
+                    if f_ == 8802:
+                        c_ = it.ev(e[2][1])
+                        return c_ + 1 if c_ - 7000 < var else TERM
+                    raise cint.NoEval('indirect call')
                 if nm in ('calloc', 'malloc'):
                     W.pending = W.next_new
                     W.next_new += 10000
@@ -148,10 +212,12 @@ def eval_list_op(P, op):
                 if nm == 'len' and it.ev(e[2][0]) == SELF:
                     return it.atoms[('elem', 'self', 0, 'nitems')]
                 raise cint.NoEval('call %s' % nm)
-            it = cint.CInt(P, fn, atoms=W.atoms, call=call, recurse=True, mem=W.mem, memw=W.memw, max_steps=6000, max_depth=6)
+            it = cint.CInt(P, fn, atoms=W.atoms, call=call, recurse=True, mem=W.mem, memw=W.memw, max_steps=6000, max_depth=6, strict=True)
             it.atoms = W.atoms
+            W.atoms[('elem', 'iterinst', 0, 'iter_init')] = 8801
+            W.atoms[('elem', 'iterinst', 0, 'iter_next')] = 8802
             args = {'push': [SELF, OBJ], 'pop': [SELF], 'push_at': [SELF, OBJ, KEYOBJ], 'pop_at': [SELF, KEYOBJ], 'rem': [SELF, OBJ], 'mem': [SELF, OBJ],
-                    'get': [SELF, KEYOBJ], 'set': [SELF, KEYOBJ, OBJ], 'resize': [SELF, var]}[op]
+                    'get': [SELF, KEYOBJ], 'set': [SELF, KEYOBJ, OBJ], 'resize': [SELF, var], 'concat': [SELF, 7777000]}[op]
             label = 'list of %d, %s%s' % (n, op, '' if var is None else ('(%s)' % (var if not isinstance(var, tuple) else 'an argument equal to the first and the last element')))
             try:
                 r = it.run(args)
@@ -202,6 +268,10 @@ def eval_list_op(P, op):
                     removed = old[var:]
                 else:
                     appended = var - n
+            elif op == 'concat':
+                appended = var
+            if getattr(W, 'mark_problem', None):
+                marks[0] = marks[0] or '%s: %s' % (label, W.mark_problem)
             if refuse:
                 if not (r[0] == 'term' and r[1] == ('throw', refuse)):
                     badr = badr or '%s: %s expected, %s' % (label, refuse, 'returns' if r[0] == 'ret' else 'raises %s' % (r[1][1] if isinstance(r[1], tuple) else r[1]))
@@ -245,50 +315,263 @@ def eval_list_op(P, op):
                 bad = bad or '%s: frees %d block(s), %d element(s) leave the list (or a block that is not theirs)' % (label, len(frees), len(removed))
             elif any(W.events.index(('free', W.block_of[v])) < W.events.index(('destruct', v)) for v in removed):
                 bad = bad or '%s: a block is freed before its element is destructed' % label
+            elif op == 'concat' and [e_ for e_ in W.events if e_[0] == 'assign'] != [('assign', W.new[k_], 7001 + k_) for k_ in range(var)]:
+                bad = bad or '%s: the new elements are not assigned from the items of the other iterable, in order' % label
             elif op in ('push', 'push_at') and ('assign', W.new[0], OBJ) not in W.events:
                 bad = bad or '%s: the new element is not assigned from the argument' % label
             elif op == 'set' and W.events != [('assign', old[var + n if var < 0 else var], OBJ)]:
                 bad = bad or '%s: %s' % (label, 'the element at the index is not assigned from the argument (%s)' % (W.events,))
             elif want_ret is not None and r[1] != want_ret:
                 bad = bad or '%s: returns %s, expected %s' % (label, name(r[1]) if isinstance(r[1], int) and r[1] > 1 else r[1], name(want_ret) if want_ret > 1 else want_ret)
+    MARKS[(id(P), op)] = marks[0]
     return bad, badr, unsup, ncase
 
 
 _CACHE = {}
 
 
-def list_ops(P):
-    """{op: (mismatch valid, mismatch refused, unsupported, cases)} for the nine List operations (memoised per program)"""
-    key = id(P)
+def list_ops(P, T='List'):
+    """{op: (mismatch valid, mismatch refused, unsupported, cases)} for the nine operations of List / Array (memoised per program)"""
+    key = (id(P), T)
     if key not in _CACHE:
         out = {}
-        for op in ('push', 'pop', 'push_at', 'pop_at', 'rem', 'mem', 'get', 'set', 'resize'):
+        for op in ('push', 'pop', 'push_at', 'pop_at', 'rem', 'mem', 'get', 'set', 'resize') + (('concat',) if T == 'List' else ()):
             try:
-                out[op] = eval_list_op(P, op)
+                out[op] = (eval_list_op if T == 'List' else eval_array_op)(P, op)
             except Unsupported as x:
                 out[op] = (None, None, str(x), 0)
         _CACHE[key] = out
     return _CACHE[key]
 
 
-def report_list_ops(P, ctx, rule, which, site):
+def report_list_ops(P, ctx, rule, which, site, T='List'):
     """which: 'valid' or 'refused'"""
-    res = list_ops(P)
+    res = list_ops(P, T)
     for op, (bad, badr, unsup, ncase) in res.items():
-        slot = {'push': ('Push', 'push'), 'pop': ('Push', 'pop'), 'push_at': ('Push', 'push_at'), 'pop_at': ('Push', 'pop_at'),
+        slot = {'push': ('Push', 'push'), 'pop': ('Push', 'pop'), 'push_at': ('Push', 'push_at'), 'pop_at': ('Push', 'pop_at'), 'concat': ('Concat', 'concat'),
                 'rem': ('Get', 'rem'), 'mem': ('Get', 'mem'), 'get': ('Get', 'get'), 'set': ('Get', 'set'), 'resize': ('Resize', 'resize')}[op]
-        fn = P.fn(P.slot('List', slot[0], slot[1]))
+        fn = P.fn(P.slot(T, slot[0], slot[1]))
         ctx.fn(fn)
         if which == 'valid':
             ctx.stats['paths'] += ncase
         m = bad if which == 'valid' else badr
-        if which == 'refused' and op in ('push', 'mem', 'resize'):
+        if which == 'refused' and op in ('push', 'mem', 'resize', 'concat'):
             continue          # these have no refused calls
         if unsup and not m:
-            ctx.undecided(rule, 'List.' + op, site(fn), 'leaves the evaluated fragment: ' + unsup)
+            ctx.undecided(rule, T + '.' + op, site(fn), 'leaves the evaluated fragment: ' + unsup)
         elif which == 'valid':
-            ctx.check(m is None, rule, 'List.' + op, site(fn), 'on lists of 0..3 elements, for every valid argument, the list afterwards reads (head, next links, tail, prev links, count) '
-                      'as the abstract sequence; the elements that leave it are destructed once and their blocks freed once, the others untouched', [m] if m else None)
+            ctx.check(m is None, rule, T + '.' + op, site(fn), ('on lists of 0..3 elements, for every valid argument, the list afterwards reads (head, next links, tail, prev links, count) '
+                      'as the abstract sequence; the elements that leave it are destructed once and their blocks freed once, the others untouched') if T == 'List' else
+                      ('on arrays of 0..3 elements (with and without spare capacity), for every valid argument, the first `count` slots afterwards hold the abstract sequence; '
+                       'every slot touched lies inside the reservation; elements that leave are destructed once, a new element is cleared, stamped and assigned once'), [m] if m else None)
         else:
-            ctx.check(m is None, rule, 'List.' + op, site(fn), 'a call that must be refused raises the documented exception with the list unchanged and nothing built for it '
+            ctx.check(m is None, rule, T + '.' + op, site(fn), 'a call that must be refused raises the documented exception with the container unchanged and nothing built for it '
                       '(no node allocated, no element assigned or destructed)', [m] if m else None)
+
+
+# ---------------------------------------------------------------------------------------------------------------------------
+# Array: element slots in one block.  The model keeps, per slot of the current capacity, what it holds ('e0', 'e1', ... the old
+# elements; 'fresh' a slot zeroed and stamped by Array_Alloc; 'junk' uninitialised capacity).  realloc sets the capacity, memmove moves
+# whole slots, Array_Alloc's memset + header_init make a slot fresh; element addresses come from Array_Item.
+
+class ArrayWorld:
+    def __init__(self, P, n, spare):
+        self.P = P
+        self.M = absmodel.build(P, 'Array', n)
+        self.atoms = self.M.atoms
+        self.atoms[('elem', 'self', 0, 'nslots')] = n + spare
+        self.DATA = self.atoms[('elem', 'self', 0, 'data')]
+        self.step = absmodel.sub(P, 'Array_Step', [SELF], self.atoms) if P.fn('Array_Step', required=False) else None
+        it0 = absmodel.sub(P, 'Array_Item', [SELF, 0], self.atoms)
+        if self.step is None:
+            self.step = absmodel.sub(P, 'Array_Item', [SELF, 1], self.atoms) - it0
+        self.hdr = it0 - self.DATA
+        self.slots = ['e%d' % k for k in range(n)] + ['junk'] * spare
+        self.zeroed = set()
+        self.events = []
+        self.freed = False
+
+    def slot_of_elem(self, addr, what):
+        off = addr - self.DATA - self.hdr
+        if off % self.step or not 0 <= off // self.step < len(self.slots):
+            raise Mismatch('%s an address that is no element inside the %d reserved slots' % (what, len(self.slots)))
+        return off // self.step
+
+    def slot_start(self, addr, what):
+        off = addr - self.DATA
+        if off % self.step or not 0 <= off // self.step <= len(self.slots):
+            raise Mismatch('%s %d bytes into the storage: not a slot boundary inside the %d reserved slots' % (what, off, len(self.slots)))
+        return off // self.step
+
+
+def eval_array_op(P, op):
+    """-> (mismatch on a valid call, mismatch on a call that must be refused, unsupported, cases)"""
+    slot = {'push': ('Push', 'push'), 'pop': ('Push', 'pop'), 'push_at': ('Push', 'push_at'), 'pop_at': ('Push', 'pop_at'),
+            'rem': ('Get', 'rem'), 'mem': ('Get', 'mem'), 'get': ('Get', 'get'), 'set': ('Get', 'set'), 'resize': ('Resize', 'resize')}[op]
+    fn = P.fn(P.slot('Array', slot[0], slot[1]))
+    OBJ, KEYOBJ = 31337, 9000
+    bad, badr, unsup, ncase = None, None, None, 0
+    for n in range(0, 4):
+        for spare in (0, 2):
+            if op in ('push', 'pop'):
+                variants = [None]
+            elif op in ('pop_at', 'get', 'set'):
+                variants = list(range(-n - 1, n + 1))
+            elif op == 'push_at':
+                variants = list(range(-n - 2, n + 2))
+            elif op in ('rem', 'mem'):
+                variants = list(range(n)) + ['absent'] + ([('dup', 0)] if n >= 2 else [])
+            else:
+                variants = list(range(0, n + 3))
+            for var in variants:
+                W = ArrayWorld(P, n, spare)
+                old = ['e%d' % k for k in range(n)]
+                target = None
+                if op in ('rem', 'mem'):
+                    target = set() if var == 'absent' else ({'e0', 'e%d' % (n - 1)} if isinstance(var, tuple) else {'e%d' % var})
+
+                def call(nm, e, it, W=W, var=var, target=target):
+                    if nm == 'c_int':
+                        v = it.ev(e[2][0])
+                        if isinstance(v, tuple) and v[0] == 'stack':
+                            return v[2][0]
+                        return var
+                    if nm == 'eq':
+                        a, b = it.ev(e[2][0]), it.ev(e[2][1])
+                        el = a if b == OBJ else (b if a == OBJ else None)
+                        if el is None:
+                            raise Mismatch('eq is applied to something that is not (an element, the argument)')
+                        return int(W.slots[W.slot_of_elem(el, 'compares')] in target)
+                    if nm == 'destruct':
+                        a = it.ev(e[2][0])
+                        W.events.append(('destruct', W.slots[W.slot_of_elem(a, 'destructs')]))
+                        return a
+                    if nm == 'assign':
+                        a = it.ev(e[2][0])
+                        W.events.append(('assign', W.slot_of_elem(a, 'assigns into'), W.slots[W.slot_of_elem(a, 'assigns into')], it.ev(e[2][1])))
+                        return a
+                    if nm == 'free':
+                        if it.ev(e[2][0]) != W.DATA:
+                            raise Mismatch('frees something that is not the storage')
+                        W.freed = True
+                        W.slots = []
+                        return 0
+                    if nm == 'realloc':
+                        if it.ev(e[2][0]) != W.DATA:
+                            raise Mismatch('reallocates something that is not the storage')
+                        b = it.ev(e[2][1])
+                        if b % W.step:
+                            raise Mismatch('reserves %d bytes: not a whole number of slots' % b)
+                        k = b // W.step
+                        W.slots = W.slots[:k] + ['junk'] * max(0, k - len(W.slots))
+                        return W.DATA
+                    if nm == 'memset':
+                        a, v, ln = it.ev(e[2][0]), it.ev(e[2][1]), it.ev(e[2][2])
+                        s0 = W.slot_start(a, 'clears from')
+                        if v != 0 or ln < W.hdr + (W.step - W.hdr) or s0 >= len(W.slots) or ln > W.step:
+                            raise Mismatch('memset(%d bytes) does not clear exactly one reserved slot' % ln)
+                        W.zeroed.add(s0)
+                        W.slots[s0] = 'zero'
+                        return a
+                    if nm == 'header_init':
+                        h = it.ev(e[2][0])
+                        s0 = W.slot_start(h, 'stamps a header')
+                        if s0 >= len(W.slots) or W.slots[s0] != 'zero':
+                            raise Mismatch('a header is stamped on slot %d, which was not cleared first (or lies outside the reservation)' % s0)
+                        W.slots[s0] = 'fresh'
+                        return h + W.hdr
+                    if nm in ('memmove', 'memcpy'):
+                        d, s_, ln = it.ev(e[2][0]), it.ev(e[2][1]), it.ev(e[2][2])
+                        if ln % W.step:
+                            raise Mismatch('moves %d bytes: not a whole number of elements' % ln)
+                        k = ln // W.step
+                        ds, ss = W.slot_start(d, 'moves to'), W.slot_start(s_, 'moves from')
+                        if k and (ds + k > len(W.slots) or ss + k > len(W.slots)):
+                            raise Mismatch('moves %d elements from slot %d to slot %d: beyond the %d reserved slots' % (k, ss, ds, len(W.slots)))
+                        if nm == 'memcpy' and k and abs(ds - ss) < k:
+                            raise Mismatch('memcpy of overlapping ranges')
+                        W.slots[ds:ds + k] = W.slots[ss:ss + k]
+                        return d
+                    if nm == 'len' and it.ev(e[2][0]) == SELF:
+                        return it.atoms[('elem', 'self', 0, 'nitems')]
+                    raise cint.NoEval('call %s' % nm)
+                it = cint.CInt(P, fn, atoms=W.atoms, call=call, recurse=True, max_steps=6000, max_depth=6, strict=True)
+                it.atoms = W.atoms
+                args = {'push': [SELF, OBJ], 'pop': [SELF], 'push_at': [SELF, OBJ, KEYOBJ], 'pop_at': [SELF, KEYOBJ], 'rem': [SELF, OBJ], 'mem': [SELF, OBJ],
+                        'get': [SELF, KEYOBJ], 'set': [SELF, KEYOBJ, OBJ], 'resize': [SELF, var]}[op]
+                label = 'array of %d (%d slots reserved), %s%s' % (n, n + spare, op, '' if var is None else ('(%s)' % (var if not isinstance(var, tuple) else 'an argument equal to the first and the last element')))
+                try:
+                    r = it.run(args)
+                except Mismatch as x:
+                    bad = bad or '%s: %s' % (label, x)
+                    continue
+                ncase += 1
+                if r[0] == 'stuck':
+                    unsup = unsup or '%s: %s at %s' % (label, r[1], P.cfg(fn).describe(r[2]))
+                    continue
+                refuse, want, want_ret, removed, want_assign = None, list(old), None, [], None
+                if op == 'push':
+                    want = old + ['fresh']
+                    want_assign = n
+                elif op == 'pop':
+                    if n == 0:
+                        refuse = 'IndexOutOfBoundsError'
+                    else:
+                        removed, want = [old[-1]], old[:-1]
+                elif op in ('pop_at', 'get', 'set'):
+                    i = var + n if var < 0 else var
+                    if not 0 <= i < n:
+                        refuse = 'IndexOutOfBoundsError'
+                    elif op == 'pop_at':
+                        removed, want = [old[i]], old[:i] + old[i + 1:]
+                    elif op == 'get':
+                        want_ret = W.DATA + W.step * i + W.hdr
+                    else:
+                        want_assign = i
+                elif op == 'push_at':
+                    i = var + n + 1 if var < 0 else var
+                    if not 0 <= i <= n:
+                        refuse = 'IndexOutOfBoundsError'
+                    else:
+                        want = old[:i] + ['fresh'] + old[i:]
+                        want_assign = i
+                elif op == 'rem':
+                    hit = [e_ for e_ in old if e_ in target]
+                    if not hit:
+                        refuse = 'ValueError'
+                    else:
+                        removed = [hit[0]]
+                        want = [e_ for e_ in old if e_ != hit[0]]
+                elif op == 'mem':
+                    want_ret = int(any(e_ in target for e_ in old))
+                elif op == 'resize':
+                    if var < n:
+                        removed, want = old[var:], old[:var]
+                cnt = W.atoms[('elem', 'self', 0, 'nitems')]
+                if refuse:
+                    if not (r[0] == 'term' and r[1] == ('throw', refuse)):
+                        badr = badr or '%s: %s expected, %s' % (label, refuse, 'returns' if r[0] == 'ret' else 'raises %s' % (r[1][1] if isinstance(r[1], tuple) else r[1]))
+                    elif W.slots[:n] != old or cnt != n or W.events or W.freed:
+                        badr = badr or '%s: refused, but the array was changed first (count %s, elements %s, %s)' % (label, cnt, W.slots[:n], [e_[0] for e_ in W.events])
+                    continue
+                if r[0] != 'ret':
+                    bad = bad or '%s: a valid call is refused (%s)' % (label, r[1][1] if isinstance(r[1], tuple) else r[1])
+                    continue
+                got = W.slots[:cnt] if 0 <= cnt <= len(W.slots) else None
+                des = [e_[1] for e_ in W.events if e_[0] == 'destruct']
+                asg = [e_ for e_ in W.events if e_[0] == 'assign']
+                if got is None:
+                    bad = bad or '%s: the count is %s, %d slots are reserved' % (label, cnt, len(W.slots))
+                elif got != want:
+                    bad = bad or '%s: the first %d slots hold %s, the sequence is %s' % (label, cnt, got, want)
+                elif sorted(des) != sorted(removed):
+                    bad = bad or '%s: destructs %s, the elements that leave the array are %s' % (label, des, removed)
+                elif want_assign is not None and [(a_[1], a_[3]) for a_ in asg] != [(want_assign, OBJ)]:
+                    bad = bad or '%s: assigns %s; expected the argument into slot %d' % (label, [(a_[1], a_[3]) for a_ in asg], want_assign)
+                elif want_assign is None and asg:
+                    bad = bad or '%s: an element is assigned (%s)' % (label, asg)
+                elif want_ret is not None and r[1] != want_ret:
+                    bad = bad or '%s: returns %s, expected %s' % (label, r[1], want_ret)
+                elif op == 'resize' and var > 0 and len(W.slots) < max(var, cnt):
+                    bad = bad or '%s: %d slots reserved afterwards' % (label, len(W.slots))
+    return bad, badr, unsup, ncase
